@@ -304,40 +304,43 @@ def run_tsan(prop, stage, tier, seed, build, log):
             res["violations"].append({"sig": "tsan-run:panic", "detail": f"schedule {s}: {cp.stdout[:400]}",
                                       "stage": stage["name"], "rsmon_stage": None, "case_seed": None, "build": "tsan"})
             r["violation_count"] += 1
-    # the in-process migration pool (objects hopping between threads) under TSan
+    # the in-process stages under TSan: the migration pool (objects hopping
+    # between threads) and the lifecycle churn (objects born and dropped on all
+    # threads at once)
     import json as _json
     import tempfile
-    tmp = tempfile.NamedTemporaryFile(suffix=".json", delete=False).name
-    try:
-        cp = subprocess.run([tsan_bin, "C16", "--tier", tier, "--seed", str(seed), "--stage", "migration",
-                             "--scale", "0.5", "--out", tmp], env=env, stdout=subprocess.PIPE, stderr=subprocess.PIPE,
-                            text=True, timeout=1800)
-        if "WARNING: ThreadSanitizer" in cp.stderr:
-            for m in re.finditer(r"WARNING: ThreadSanitizer: ([a-z \-]+)(.*?)(?=\n=+\n|\Z)", cp.stderr, re.S):
-                frames = re.findall(r"#\d+ (\S+)", m.group(2))
-                first = next((f for f in frames if "reed_solomon_simd" in f), frames[0] if frames else "?")
-                sig = f"tsan:{m.group(1).strip()}:{first[:80]}"
-                if sig not in seen:
-                    seen.add(sig)
-                    res["violations"].append({"sig": sig, "detail": "migration pool: " + m.group(0)[:1500],
-                                              "stage": stage["name"], "rsmon_stage": None, "case_seed": None,
-                                              "build": "tsan"})
-                r["violation_count"] += 1
-        if os.path.exists(tmp) and os.path.getsize(tmp) > 0:
-            mj = _json.load(open(tmp))
-            r["evaluations"] += mj["evaluations"]
-            r["tags"]["tsan:migration-rounds"] = mj["evaluations"]
-            for v in mj["violations"]:
-                res["violations"].append({"sig": v["sig"], "detail": v["detail"], "stage": stage["name"],
-                                          "rsmon_stage": None, "case_seed": None, "build": "tsan"})
-                r["violation_count"] += 1
-        elif cp.returncode != 0:
-            res["inconclusive"].append(f"stage {stage['name']}: migration pool under TSan exited with {cp.returncode}: {cp.stderr[-300:]}")
-    except subprocess.TimeoutExpired:
-        res["inconclusive"].append(f"stage {stage['name']}: migration pool under TSan exceeded 1800 s")
-    finally:
-        if os.path.exists(tmp):
-            os.remove(tmp)
+    for inproc, scale in (("migration", "0.5"), ("churn", "0.3")):
+        tmp = tempfile.NamedTemporaryFile(suffix=".json", delete=False).name
+        try:
+            cp = subprocess.run([tsan_bin, "C16", "--tier", tier, "--seed", str(seed), "--stage", inproc,
+                                 "--scale", scale, "--out", tmp], env=env, stdout=subprocess.PIPE,
+                                stderr=subprocess.PIPE, text=True, timeout=1800)
+            if "WARNING: ThreadSanitizer" in cp.stderr:
+                for m in re.finditer(r"WARNING: ThreadSanitizer: ([a-z \-]+)(.*?)(?=\n=+\n|\Z)", cp.stderr, re.S):
+                    frames = re.findall(r"#\d+ (\S+)", m.group(2))
+                    first = next((f for f in frames if "reed_solomon_simd" in f), frames[0] if frames else "?")
+                    sig = f"tsan:{m.group(1).strip()}:{first[:80]}"
+                    if sig not in seen:
+                        seen.add(sig)
+                        res["violations"].append({"sig": sig, "detail": f"{inproc}: " + m.group(0)[:1500],
+                                                  "stage": stage["name"], "rsmon_stage": None, "case_seed": None,
+                                                  "build": "tsan"})
+                    r["violation_count"] += 1
+            if os.path.exists(tmp) and os.path.getsize(tmp) > 0:
+                mj = _json.load(open(tmp))
+                r["evaluations"] += mj["evaluations"]
+                r["tags"][f"tsan:{inproc}-evaluations"] = mj["evaluations"]
+                for v in mj["violations"]:
+                    res["violations"].append({"sig": v["sig"], "detail": v["detail"], "stage": stage["name"],
+                                              "rsmon_stage": None, "case_seed": None, "build": "tsan"})
+                    r["violation_count"] += 1
+            elif cp.returncode != 0:
+                res["inconclusive"].append(f"stage {stage['name']}: {inproc} under TSan exited with {cp.returncode}: {cp.stderr[-300:]}")
+        except subprocess.TimeoutExpired:
+            res["inconclusive"].append(f"stage {stage['name']}: {inproc} under TSan exceeded 1800 s")
+        finally:
+            if os.path.exists(tmp):
+                os.remove(tmp)
     r["distinct_nontrivial"] = r["cases"]
     r["tags"]["tsan:schedules"] = r["cases"]
     r["tags"]["tsan:reports"] = len(seen)
